@@ -311,3 +311,58 @@ fn c10_read_n_step() {
     assert!(!(n as usize >= left), "CANARY: finished reachable");
     assert!(n != 0, "CANARY: eof reachable");
 }
+
+/// read_n_vectored step (2 buffers): eof / done iff last >= left / otherwise re-armed with the same buffers (bytes read
+/// so far kept, front to back), iovecs recomputed over the remaining capacity, left - last, offset + last.
+//@waker_stubs
+#[kani::proof]
+#[kani::unwind(4)]
+fn c10_read_n_vectored_step() {
+    let mut ring = FakeSq::<2>::new(0, 0, 0);
+    let subs = subs_of(ring.shared(2, false, false));
+    let (afd, fdn, kind) = mk_fd(&subs);
+    let b0 = any_rb(0);
+    let b1 = any_rb(1);
+    let spare0 = b0.cap - b0.len;
+    let spare1 = b1.cap - b1.len;
+    kani::assume(spare0 + spare1 >= 1);
+    let left: usize = kani::any();
+    kani::assume(left >= 1);
+    let positional: bool = kani::any();
+    let offset: u64 = if positional { kani::any() } else { NO_OFFSET };
+    kani::assume(!positional || offset <= u64::MAX - 64);
+    let mut rd = afd.read_n_vectored((b0, b1), left);
+    if positional {
+        rd = rd.from(offset);
+    }
+    let n: u32 = kani::any();
+    kani::assume(n <= spare0 + spare1);
+    force_done(&rd.read.state, n as i32, 0);
+    env::fallback_as_identity();
+    env::use_poll_contract();
+    env::cut_at_repoll();
+    let waker = env::waker(4);
+    let mut ctx = Context::from_waker(&waker);
+    let r = unsafe { Pin::new_unchecked(&mut rd) }.poll(&mut ctx);
+    let first = if n < spare0 { n } else { spare0 };
+    if n == 0 {
+        assert!(matches!(&r, Poll::Ready(Err(e)) if e.kind() == io::ErrorKind::UnexpectedEof));
+    } else if n as usize >= left {
+        assert!(matches!(&r, Poll::Ready(Ok(b)) if b.0.len == b0.len + first && b.1.len == b1.len + (n - first) && b.0.ptr == b0.ptr && b.1.ptr == b1.ptr), "done: the caller's buffers with the bytes appended front to back");
+    } else {
+        assert!(r.is_pending() && unsafe { env::E.repoll_entries } == 2);
+        assert!(status_any(&rd.read.state) == St::NotStarted && rd.left == left - n as usize);
+        let res = crate::io_uring::op::verif_op::peek_resources(&rd.read.state);
+        assert!(res.0.buf.0.len == b0.len + first && res.0.buf.1.len == b1.len + (n - first), "bytes read so far kept, front to back");
+        let iov = &res.1;
+        assert!(iov[0].len() as u32 == spare0 - first && iov[1].len() as u32 == spare1 - (n - first), "next read targets the remaining capacity only");
+        assert!(iov[0].len() == 0 || unsafe { iov[0].ptr() }.addr() == b0.ptr.addr() + (b0.len + first) as usize);
+        assert!(iov[1].len() == 0 || unsafe { iov[1].ptr() }.addr() == b1.ptr.addr() + (b1.len + n - first) as usize);
+        assert!(*rd.read.state.args() == if positional { offset + n as u64 } else { NO_OFFSET });
+    }
+    std::mem::forget(r);
+    std::mem::forget(rd);
+    assert!(!(n > 0 && (n as usize) < left && n > spare0), "CANARY: continuation inside the second buffer reachable");
+    assert!(!(n as usize >= left), "CANARY: finished reachable");
+    assert!(n != 0, "CANARY: eof reachable");
+}
